@@ -943,6 +943,7 @@ fn gh_key(v: &Value) -> String {
 pub static FE_DOCS: std::sync::atomic::AtomicU64 = std::sync::atomic::AtomicU64::new(0);
 pub static FE_GITHUB: std::sync::atomic::AtomicU64 = std::sync::atomic::AtomicU64::new(0);
 pub static FE_STDIN: std::sync::atomic::AtomicU64 = std::sync::atomic::AtomicU64::new(0);
+pub static FE_STDIN_LIMITED: std::sync::atomic::AtomicU64 = std::sync::atomic::AtomicU64::new(0);
 pub static FE_VERDICTS: std::sync::atomic::AtomicU64 = std::sync::atomic::AtomicU64::new(0);
 
 pub fn frontends_check(w: &LspWorld, u: &UriSpec, text: &str) -> Result<Option<(String, String)>, String> {
@@ -1011,7 +1012,11 @@ pub fn frontends_check(w: &LspWorld, u: &UriSpec, text: &str) -> Result<Option<(
             }
             globals.iter().any(|g| text.contains(&format!("matches: {g}\n")))
           };
-          let usable = !f.docs.is_empty() && f.docs.iter().all(|r| r.language == lang && r.files.is_none() && r.ignores.is_none() && r.severity.as_deref() != Some("off") && !needs_global(r));
+          let usable = !f.docs.is_empty() && f.docs.iter().all(|r| r.language == lang && r.severity.as_deref() != Some("off") && !needs_global(r));
+          // a rule limited by `files:`/`ignores:` applies to the file only where its globs say so, while
+          // standard input has no path to exclude by: there every finding on the file must also be
+          // listed for standard input (and the two lists are equal for the rules without globs)
+          let path_limited = f.docs.iter().any(|r| r.files.is_some() || r.ignores.is_some());
           if !usable {
             continue;
           }
@@ -1033,7 +1038,16 @@ pub fn frontends_check(w: &LspWorld, u: &UriSpec, text: &str) -> Result<Option<(
             x
           };
           FE_STDIN.fetch_add(1, Ordering::Relaxed);
-          if strip(&on_file) != strip(&on_stdin) {
+          let (sf, ss) = (strip(&on_file), strip(&on_stdin));
+          let differs = if path_limited {
+            let limited: Vec<&str> = f.docs.iter().filter(|r| r.files.is_some() || r.ignores.is_some()).map(|r| r.id.as_str()).collect();
+            let free = |v: &[String]| v.iter().filter(|x| !limited.iter().any(|id| x.contains(&format!("\"ruleId\":\"{id}\"")))).cloned().collect::<Vec<_>>();
+            FE_STDIN_LIMITED.fetch_add(1, Ordering::Relaxed);
+            sf.iter().any(|x| !ss.contains(x)) || free(&sf) != free(&ss)
+          } else {
+            sf != ss
+          };
+          if differs {
             return Ok(Some(("STDIN-DIFFERS".into(), format!("{}: `scan -r {rf} --stdin` lists {} records, the same rule file on the file {}", u.rel, on_stdin.len(), on_file.len()))));
           }
           // 4. `sg test` verdict per rule of this file: valid = no finding, invalid = at least one
@@ -1045,7 +1059,9 @@ pub fn frontends_check(w: &LspWorld, u: &UriSpec, text: &str) -> Result<Option<(
             let copies = (20 / f.docs.len().max(1)).max(1);
             for c in 0..copies {
               for r in &f.docs {
-                let n = on_file.iter().filter(|x| x["ruleId"].as_str() == Some(r.id.as_str())).count();
+                // `sg test` knows no path either
+                let reference = if path_limited { &on_stdin } else { &on_file };
+                let n = reference.iter().filter(|x| x["ruleId"].as_str() == Some(r.id.as_str())).count();
                 let key = if n == 0 { "valid" } else { "invalid" };
                 let other = if n == 0 { "invalid" } else { "valid" };
                 let y = format!("id: {}\n{key}:\n- {}\n{other}: []\n", r.id, serde_json::to_string(text).unwrap());
@@ -1367,6 +1383,7 @@ impl Simulation for C09Sim {
     r.add("probe:frontends_documents_cross_checked", FE_DOCS.swap(0, Ordering::Relaxed));
     r.add("probe:frontends_github_annotations_compared", FE_GITHUB.swap(0, Ordering::Relaxed));
     r.add("probe:frontends_stdin_vs_file_compared", FE_STDIN.swap(0, Ordering::Relaxed));
+    r.add("probe:frontends_stdin_vs_file_with_path_globs", FE_STDIN_LIMITED.swap(0, Ordering::Relaxed));
     r.add("probe:frontends_test_verdicts_compared", FE_VERDICTS.swap(0, Ordering::Relaxed));
     r.add("probe:server_to_client_requests", sim.server_requests as u64);
     if sim.backpressure_polls > 0 {
